@@ -323,6 +323,9 @@ def body_conditional_dates(I, X, lm_month=3, ims_month=3, zone="GMT", lm_kind="a
         return (y, month, d, X.int(tag + "h", 0, 23), X.int(tag + "mi", 0, 59), X.int(tag + "s", 0, 59))
 
     a = fields("a", lm_month)     # Last-Modified (a datetime object, as applications pass it)
+    if lm_kind.startswith("off"):
+        # converting the very last / first day of the calendar to UTC overflows datetime itself
+        X.assume(a[0] <= 9998)
     b = fields("b", ims_month)    # If-Modified-Since (header text)
     # the header's zone is enumerated ('GMT' or a numeric offset such as '+0130'); all calendar
     # fields of both sides are solver integers
